@@ -13,6 +13,7 @@ int main(int argc, char **argv) {
     e.exec = net::exec_plan;
     e.on_crash = net::classify_crash;
     e.simplify = net::simplify_line;
+    e.confirm = net::confirm_violation;
     e.real_components = {"libopen1722 + libopen1722custom objects built from /repo/src (working tree)",
                          "all 12 example programs and examples/common/common.c built from /repo/examples with -Dmain=<prog>_main",
                          "glibc argp, printf, malloc (ASan allocator)"};
